@@ -113,6 +113,13 @@ def fieldStep (fuel : Nat) (addr : Bool) (t : Ty) (sv : Val) (ret : List (String
 def FieldEnc (o : Oracle) (fuel : Nat) (addr : Bool) (t : Ty) (sv : Val) (f : FlatField) (w : Wire) : Prop :=
   ∃ tv, walkGet addr f.index t addr sv = .ok tv ∧ (encode fuel addr tv.1 tv.2).run o = .ok w
 
+/-- the struct arm of `encode` is the field loop followed by wrapping the map -/
+theorem encode_struct_eq' (fuel : Nat) (addr : Bool) (id : String) (fields : List Field) (sv : Val) :
+    Custom.encode (fuel + 1) addr (.struct id fields) sv =
+      ((typeFields (.struct id fields)).foldlM (fieldStep fuel addr (.struct id fields) sv) [] >>=
+        fun ret => pure (.obj ret)) := by
+  cases sv <;> rfl
+
 theorem fold_spec (o : Oracle) (fuel : Nat) (addr : Bool) (t : Ty) (sv : Val) :
     ∀ (fs : List FlatField) (acc ret : List (String × Wire)),
       (fs.foldlM (fieldStep fuel addr t sv) acc).run o = .ok ret → (keys acc).Nodup →
